@@ -21,6 +21,7 @@ From UV.Py Require Import PyStr.
 From UV.Vers Require Import Model VersText TotalityProofs.
 From UV.Schemes Require Import Common Generic LegacyOpenssl Gentoo Debian Semver TotalityProofs.
 From UV.Schemes Require Import Rpm Gem Arch Openssl TotalityProofs2 Pypi Maven Nuget Conan NugetConanProofs.
+From UV.Native Require Import Advisory MavenRange Relations Nginx ParserTotality.
 Import ListNotations.
 
 Theorem C16_from_string_fails_only_with_declared_errors :
@@ -63,7 +64,23 @@ Theorem C16_no_internal_error_behind_the_validity_checks :
   (forall s, exists o, leg_parse s = Ok o) /\ (forall s e, coerce s = Err e -> e = EValue).
 Proof. split; [exact leg_parse_total|exact coerce_declared]. Qed.
 
+(* the modelled native parsers: a value, a ValueError, or the error of the version constructor; the fuel of the
+   bracket-notation loop (the length of the text) is never exhausted *)
+Theorem C16_native_parser_models_fail_only_with_declared_errors :
+  (forall (mcmp : str -> str -> comparison) (V : Type) (mk : str -> res V) (P : err -> Prop),
+     (forall t e, mk t = Err e -> P e) -> forall s e, maven_native mcmp V mk s = Err e -> e = EValue \/ P e) /\
+  (forall (V : Type) (vctor : str -> res V) (T : ctable) (strip s : str) (e : err),
+     relation_constraint V vctor T strip s = Err e -> e = EValue \/ exists t, vctor t = Err e) /\
+  (forall s e, nginx_native s = Err e -> e = EInvalidVersion).
+Proof.
+  split; [|split].
+  - intros mcmp V mk P Hmk s e. apply (maven_native_declared mcmp V mk P Hmk).
+  - exact relation_declared.
+  - exact nginx_native_declared.
+Qed.
+
 Print Assumptions C16_from_string_fails_only_with_declared_errors.
 Print Assumptions C16_constructors_fail_only_with_InvalidVersion.
 Print Assumptions C16_later_constructors_fail_only_with_InvalidVersion.
 Print Assumptions C16_no_internal_error_behind_the_validity_checks.
+Print Assumptions C16_native_parser_models_fail_only_with_declared_errors.
